@@ -37,3 +37,16 @@ Proof.
   destruct (C11_chunk_aligned_slices_cover cs m (gen_convert_num_slices w) None H1 H2 Hn I) as [ps [E [R _]]].
   exists ps. split; [exact E|exact R].
 Qed.
+
+(* the metadata arrays: sample ids from the .fam, positions from the .bim as int32, the allele pair (allele_1, allele_2) stacked
+   per variant as strings -- the arrays' data are the reader's attributes themselves *)
+Definition convert_metadata_ok : bool :=
+  match gen_convert_metadata with
+  | [(a1, d1, t1); (a2, d2, t2); (a3, d3, t3)] =>
+      String.eqb a1 "sample_id" && String.eqb d1 "bed.iid" && String.eqb t1 "str"
+      && String.eqb a2 "variant_position" && String.eqb d2 "bed.bp_position" && String.eqb t2 "np.int32"
+      && String.eqb a3 "variant_allele" && String.eqb d3 "np.stack([bed.allele_1, bed.allele_2], axis=1)" && String.eqb t3 "str"
+  | _ => false
+  end.
+Lemma translated_convert_metadata_lemma : convert_metadata_ok = true.
+Proof. vm_compute. reflexivity. Qed.
